@@ -403,6 +403,36 @@ def run(ctx):
             res.ok("D-STEP", f, norm(asg), "append-drawn", loc(v.fi, ch[0]))
         else:
             res.unknown("D-STEP", f, "nodes.append(next_node)", "append-drawn", "the statement that extends the walk was not recognised", loc(v.fi, ch[0]))
+    # ---- D-ROWALIGN: vectors that live next to the transition matrix are indexed like its rows - by node label.  A vector read off
+    #      `<dict keyed by node>.values()` follows the order in which the nodes were first seen, which is the label order only for
+    #      hypergraphs whose nodes were inserted in increasing order
+    with res.guard("D-ROWALIGN"):
+        from ..kinds import Atom as _A, Dct as _D, strip_none as _sn
+
+        res.rules["D-ROWALIGN"] = "a state / density vector is never read off the values of a dict keyed by node label (insertion order is not row order)"
+        mod = ctx.require("randwalk.transition_matrix").module
+        n_v = 0
+        for g in ctx.prog.functions.values():
+            if g.module is not mod or g.parent is not None:
+                continue
+            gv = ctx.view(g)
+            for c in walk_no_nested(g.node):
+                if not (isinstance(c, ast.Call) and isinstance(c.func, ast.Attribute) and c.func.attr == "values" and not c.args):
+                    continue
+                try:
+                    k = _sn(gv.kind(c.func.value))
+                except Exception:
+                    continue
+                if not (isinstance(k, _D) and isinstance(k.key, _A) and k.key.name == "NODE"):
+                    continue
+                # consumed as an array / list (not merely summed or iterated for a reduction)
+                par = gv.parent.get(id(c))
+                arrayish = isinstance(par, ast.Call) and (norm(par.func).split(".")[-1] in ("array", "asarray", "fromiter", "list", "tuple", "hstack", "stack"))
+                if arrayish:
+                    n_v += 1
+                    res.violation("D-ROWALIGN", g.short, norm(par)[:100], norm(c.func.value), f"the vector is read off `{norm(c)[:40]}`, a dict keyed by node label: entry k belongs to the k-th INSERTED node, while the rows of the transition matrix are indexed by label - the result is a permutation of the intended vector unless nodes were first seen in increasing order", loc(g, par))
+        if n_v == 0:
+            res.ok("D-ROWALIGN", "randwalk", "no vector read off a node-keyed dict", "scan", mod.relpath)
     res.assumptions += ["transition_matrix / random walks index by label (one-symbol exemption: the property restricts them to nodes 0..N-1)", "numeric stochasticity / stationarity are not decided"]
     with res.guard("general lint pack over the property's files"):
         from ..lints import check_pack
